@@ -20,8 +20,12 @@ class Ctl(object):
         self.reset()
     def reset(self):
         self.armed = False
-        self.n = 0                # next call index
+        self.n = 0                # next call index (sessions mode: one thread)
         self.faults = set()
+        self.per_thread = False   # threads mode: call indexes, fault sets and connection ids are per thread
+        self.n_by = {}
+        self.faults_by = {}
+        self.con_by = {}
         self.trace = []           # [kind, stmt, con, ok, lock, dbtxn, thread]
         self.next_con = 0
         self.cons = {}            # id -> wrapper
@@ -67,13 +71,21 @@ def gate(kind, stmt, con):
     c = CTL
     if not c.armed: return
     with c.mutex:
-        k = c.n
-        c.n += 1
-        fail = k in c.faults
+        if c.per_thread:
+            t = tname()
+            k = c.n_by.get(t, 0)
+            c.n_by[t] = k + 1
+            fail = k in c.faults_by.get(t, ())
+            newid = c.con_by.get(t, 0)
+        else:
+            k = c.n
+            c.n += 1
+            fail = k in c.faults
+            newid = c.next_con
         real = con.real if con is not None else None
         try: dbtxn = bool(real.in_transaction) if real is not None else False
         except Exception: dbtxn = False
-        c.trace.append([kind, stmt, con.cid if con is not None else c.next_con, not fail, c.lock_state(), dbtxn, tname()])
+        c.trace.append([kind, stmt, con.cid if con is not None else newid, not fail, c.lock_state(), dbtxn, tname()])
     if c.crash_at is not None and k == c.crash_at and c.crash_kind == 'before':
         os._exit(9)
     if fail:
@@ -153,10 +165,17 @@ class SqliteProxy(object):
         gate('connect', '', None)
         real = REAL_SQLITE.connect(*args, **kwargs)
         with CTL.mutex:
-            cid = CTL.next_con
-            CTL.next_con += 1
+            if CTL.per_thread:
+                t = tname()
+                cid = CTL.con_by.get(t, 0)
+                CTL.con_by[t] = cid + 1
+                key = (t, cid)
+            else:
+                cid = CTL.next_con
+                CTL.next_con += 1
+                key = cid
         w = ConWrap(real, cid)
-        CTL.cons[cid] = w
+        CTL.cons[key] = w
         return w
     def __getattr__(self, name): return getattr(REAL_SQLITE, name)
 
@@ -377,15 +396,24 @@ def run_session_case(case, workdir):
 # ---------------------------------------------------------------------------------------------- mode: threads
 
 class SchedLock(object):
-    """Replacement for provider.transaction_lock that tells the controller when a thread is about to block."""
-    def __init__(self, on_block):
+    """Replacement for provider.transaction_lock / pre_transaction_lock under the deterministic scheduler: a thread that
+    finds the lock held registers as a waiter, tells the controller, and sleeps until the controller wakes it (which it
+    does only when the lock is free and every other thread is idle), so the interleaving is fully determined by the schedule."""
+    def __init__(self, name, notify):
         self._l = threading.Lock()
-        self.on_block = on_block
+        self.name = name
+        self.notify = notify
+        self.waiters = []           # [(thread name, Event)] FIFO
+        self.abort = False
     def acquire(self, blocking=True, timeout=-1):
-        if self._l.acquire(False): return True
-        if not blocking: return False
-        self.on_block(tname())
-        return self._l.acquire(True, timeout)
+        while True:
+            if self._l.acquire(False): return True
+            if not blocking: return False
+            ev = threading.Event()
+            self.waiters.append((tname(), ev))
+            self.notify(tname(), self.name)
+            ev.wait()
+            if self.abort: raise RuntimeError('scheduler aborted while waiting for %s' % self.name)
     def release(self): self._l.release()
     def locked(self): return self._l.locked()
     def __enter__(self): self.acquire(); return self
@@ -393,15 +421,13 @@ class SchedLock(object):
 
 
 class Worker(object):
-    """A thread that executes commands one at a time; the controller runs exactly one command at a time unless a
-    worker is blocked on the provider lock."""
     def __init__(self, name, db, T, results):
         self.name = name
         self.q = queue.Queue()
         self.db, self.T = db, T
-        self.results = results          # queue of (name, seq, outcome)
-        self.th = threading.Thread(target=self.loop, name=name, daemon=True)
+        self.results = results
         self.cm = None
+        self.th = threading.Thread(target=self.loop, name=name, daemon=True)
         self.th.start()
     def loop(self):
         from pony import orm
@@ -409,11 +435,15 @@ class Worker(object):
             cmd = self.q.get()
             if cmd is None: return
             seq, op, arg = cmd
+            # keep the session structure valid when earlier steps of this thread were skipped (it was blocked)
+            if (op == 'enter' and self.cm is not None) or (op != 'enter' and self.cm is None):
+                self.results.put(('done', self.name, seq, 'noop'))
+                continue
             try:
                 if op == 'enter':
                     self.cm = orm.db_session(**session_kwargs(arg))
                     self.cm.__enter__()
-                elif op == 'exit':
+                elif op in ('exit', 'exit_if_open'):
                     cm, self.cm = self.cm, None
                     cm.__exit__(None, None, None)
                 elif op == 'exit_exc':
@@ -425,97 +455,95 @@ class Worker(object):
                 out = 'ok'
             except BaseException as e:
                 out = exc_enum(e)
-                if op not in ('enter', 'exit', 'exit_exc') and False:
-                    pass
-            self.results.put((self.name, seq, out))
+            self.results.put(('done', self.name, seq, out))
 
 
 def run_thread_case(case, workdir):
-    """case: {threads: n, steps: [[thread, op, arg]], faults: [k]} executed strictly in the given order; a step whose
-    thread blocks on the provider lock is reported 'blocked' and completes later (its completion is recorded when it happens)."""
+    """case: {threads: n, steps: [[thread, op, arg]], faults: {thread: [k]}}.  Steps are issued strictly in order, one at a
+    time.  A step whose thread finds the provider lock held is recorded 'blocked'; it is completed (recorded again, with its
+    real outcome) as soon as a later step has freed the lock.  Steps addressed to a thread that is still blocked are skipped."""
     from pony.orm import core
     path = os.path.join(workdir, 't%d.sqlite' % case.get('n', 0))
     if os.path.exists(path): os.remove(path)
     CTL.reset()
     db, T = make_db(path)
     db.disconnect()
-    CTL.cons.clear(); CTL.next_con = 0
+    CTL.cons.clear()
     CTL.provider = db.provider
+    CTL.per_thread = True
+    CTL.faults_by = {'w%s' % t: set(v) for t, v in case.get('faults', {}).items()}
     results = queue.Queue()
-    blocked_evt = queue.Queue()
-    db.provider.transaction_lock = SchedLock(lambda name: results.put((name, -1, 'blocked')))
+    notify = lambda thread, lockname: results.put(('blocked', thread, lockname, None))
+    txn_lock = SchedLock('txn', notify)
+    pre_lock = SchedLock('pre', notify)
+    db.provider.transaction_lock = txn_lock
+    db.provider.pre_transaction_lock = pre_lock
     workers = {i: Worker('w%d' % i, db, T, results) for i in range(case['threads'])}
-    log = []                    # per step: [thread, op, outcome-at-issue]  outcome in ok|exc|blocked|skipped
-    late = []                   # completions of blocked steps: [step index, outcome, after step index]
-    pending = {}                # thread -> step index blocked
-    CTL.faults = set(case.get('faults', []))
-    CTL.armed = True
     hard = case.get('timeout', 20.0)
-    failed = None
-    def wait_event(timeout):
-        try: return results.get(timeout=timeout)
-        except queue.Empty: return None
+    effective = []              # [thread, op, arg, outcome, lock_after]
+    pending = {}                # thread -> (op, arg) of its blocked step
+    failed = [None]
+
+    def wait_for(thread):
+        """next event of `thread`: ('done', outcome) or ('blocked', lockname)"""
+        while True:
+            try: ev = results.get(timeout=hard)
+            except queue.Empty:
+                failed[0] = 'hard timeout waiting for thread %s' % thread
+                return ('timeout', None)
+            if ev[1] != 'w%d' % thread:
+                failed[0] = 'unexpected event %r while waiting for thread %s' % (ev, thread)
+                return ('timeout', None)
+            if ev[0] == 'done': return ('done', ev[3])
+            return ('blocked', ev[2])
+
+    def settle():
+        """wake waiters of free locks, one at a time, until nothing can move"""
+        progress = True
+        while progress and not failed[0]:
+            progress = False
+            for lk in (pre_lock, txn_lock):
+                if lk.waiters and not lk.locked():
+                    name, ev = lk.waiters.pop(0)
+                    t = int(name[1:])
+                    ev.set()
+                    kind, val = wait_for(t)
+                    if kind == 'done':
+                        op, arg = pending.pop(t)
+                        effective.append([t, op, arg, val, txn_lock.locked()])
+                    progress = True
+                    break
+
+    CTL.armed = True
     try:
-        for idx, (t, op, arg) in enumerate(case['steps']):
+        for t, op, arg in case['steps']:
+            if failed[0]: break
             if t in pending:
-                log.append([t, op, 'skipped-blocked', CTL.lock_state()])
+                effective.append([t, op, arg, 'skipped', txn_lock.locked()])
                 continue
-            workers[t].q.put((idx, op, arg))
-            while True:
-                ev = wait_event(hard)
-                if ev is None:
-                    failed = 'hard timeout waiting for step %d' % idx
-                    break
-                name, seq, outc = ev
-                if seq == -1:
-                    # a thread announced that it is going to block on the provider lock
-                    th = int(name[1:])
-                    if th == t:
-                        pending[t] = idx
-                        log.append([t, op, 'blocked', CTL.lock_state()])
-                        break
-                    continue
-                if seq == idx:
-                    log.append([t, op, outc, CTL.lock_state()])
-                    break
-                # completion of an earlier blocked step
-                th = int(name[1:])
-                late.append([seq, outc, idx])
-                pending.pop(th, None)
-            if failed: break
-            # completions of blocked steps released by this step: wait (bounded) until the unblocked thread reports
-            if pending and not CTL.lock_state_raw_locked_by_blocked() if False else False:
-                pass
-            drained = True
-            while pending and drained:
-                # a blocked thread proceeds only if the lock has been released by the step just executed
-                lk = db.provider.transaction_lock
-                if lk.locked() and all(True for _ in pending):
-                    # somebody holds it: either the old holder or a woken waiter that is still running; poll completion briefly
-                    ev = wait_event(0.5)
-                else:
-                    ev = wait_event(0.5)
-                if ev is None:
-                    drained = False
-                    break
-                name, seq, outc = ev
-                if seq == -1: continue
-                th = int(name[1:])
-                late.append([seq, outc, idx])
-                pending.pop(th, None)
+            workers[t].q.put((len(effective), op, arg))
+            kind, val = wait_for(t)
+            if kind == 'done':
+                effective.append([t, op, arg, val, txn_lock.locked()])
+            elif kind == 'blocked':
+                pending[t] = (op, arg)
+                effective.append([t, op, arg, 'blocked', txn_lock.locked()])
+            settle()
     finally:
         CTL.armed = False
-    out = {'log': log, 'late': late, 'still_blocked': sorted(pending), 'failed': failed,
-           'lock_after': bool(db.provider.transaction_lock.locked())}
-    # unblock anything still waiting so that the process can finish
-    if pending:
-        try: db.provider.transaction_lock.release()
-        except Exception: pass
+    out = {'effective': effective, 'still_blocked': sorted(pending), 'failed': failed[0],
+           'lock_after': bool(txn_lock.locked()), 'prelock_after': bool(pre_lock.locked())}
+    # let everything finish so that the process can end
+    for lk in (pre_lock, txn_lock):
+        lk.abort = True
+        for name, ev in lk.waiters: ev.set()
     for w in workers.values(): w.q.put(None)
     for w in workers.values(): w.th.join(2.0)
     out['threads_alive'] = sum(1 for w in workers.values() if w.th.is_alive())
-    out['trace'] = [t[:7] for t in CTL.trace]
-    out['rows_after'] = read_rows(path)
+    out['traces'] = {str(i): [e[:6] for e in CTL.trace if e[6] == 'w%d' % i] for i in range(case['threads'])}
+    out['closes'] = {'%s:%d' % k: w.closes for k, w in sorted(CTL.cons.items())}
+    try: out['rows_after'] = read_rows(path)
+    except Exception as e: out['rows_after'] = 'error:' + type(e).__name__
     for w in CTL.cons.values():
         try: w.real.close()
         except Exception: pass
